@@ -96,9 +96,29 @@ def fromRelLinkUrl (url relativeTo : Str) : Str :=
 def fromRelLinkUrlJoin (url relativeTo : Str) : Str :=
   pushStr relativeTo (trimMd url)
 
-/-- `Key::to_rel_link_url(&self, relative_to)` -/
-def toRelLinkUrl (key relativeTo : Str) : Str :=
+/-- `RelativePath::file_name`: the last component that is not `.`, when it is a normal one -/
+def fileNameRev : List Comp → Option Str
+  | [] => none
+  | .cur :: rest => fileNameRev rest
+  | .normal n :: _ => some n
+  | .parent :: _ => none
+
+def fileName (s : Str) : Option Str := fileNameRev (comps s).reverse
+
+/-- the body of `Key::to_rel_link_url` before repair D34: the bare relative path (empty when the
+key is the linking directory itself) -/
+def toRelLinkUrlBare (key relativeTo : Str) : Str :=
   render (relative (comps relativeTo) (comps key))
+
+/-- `Key::to_rel_link_url(&self, relative_to)` (after repair D34: a note named like the linking
+note's directory is written `../name`, never as an empty url) -/
+def toRelLinkUrl (key relativeTo : Str) : Str :=
+  let url := toRelLinkUrlBare key relativeTo
+  if url = [] then
+    match fileName key with
+    | some name => '.' :: '.' :: '/' :: name
+    | none => url
+  else url
 
 /-- `RelativePath::parent` on the reversed string: drop trailing separators, drop the last
 piece; repeat while that piece was `.`.  Fuel = length suffices (each round consumes ≥ 1 char). -/
